@@ -472,7 +472,7 @@ func c02Classify(in c02Input, got, want []string) string {
 
 func c02Variants() []c02Ctr {
 	var out []c02Ctr
-	for _, ls := range []map[string]string{{}, {"k": "v"}, {"k": ""}, {"com.x/y": "v"}, {"k": "v", "com.x/y": "v"}, {"k": "", "com.x/y": "v"}, {"container.role": "v", "k.d": "v"}} {
+	for _, ls := range []map[string]string{{}, {"k": "v"}, {"k": ""}, {"com.x/y": "v"}, {"k": "v", "com.x/y": "v"}, {"k": "", "com.x/y": "v"}, {"container.role": "v", "k.d": "v", "--zone": "z"}} {
 		for _, st := range []string{"running", "exited"} {
 			for _, img := range []string{"i1", "i2"} {
 				for _, n := range []string{"/a", "/b", "/ab"} {
@@ -604,8 +604,11 @@ func c02Run(r *vkit.Run) {
 				j := (i + 1) % len(inv)
 				before[i] = c02Ctr{Name: inv[j].Name, Names: inv[j].Names, Image: inv[i].Image, State: map[string]string{"running": "exited", "exited": "running"}[inv[i].State], Labels: inv[j].Labels}
 			}
-			for _, bm := range [][]c02Matcher{{all}, {{Label: "container_state", Op: "=", Value: "running"}}, {{Label: "container", Op: "=~", Value: "a.*"}}} {
-				for _, m := range []c02Matcher{all, {Label: "container_state", Op: "=", Value: "running"}, {Label: "container", Op: "!=", Value: "a"}, {Label: "k", Op: "=", Value: "v"}, {Label: "container_name", Op: "=~", Value: "a|b"}} {
+			// (the last two earlier selectors differ from selectors used below in the blanks inside a string only)
+			for _, bm := range [][]c02Matcher{{all}, {{Label: "container_state", Op: "=", Value: "running"}}, {{Label: "container", Op: "=~", Value: "a.*"}},
+				{{Label: "container_command", Op: "=", Value: "run  running"}}, {{Label: "container_status", Op: "=~", Value: "Up   .*"}}} {
+				for _, m := range []c02Matcher{all, {Label: "container_state", Op: "=", Value: "running"}, {Label: "container", Op: "!=", Value: "a"}, {Label: "k", Op: "=", Value: "v"}, {Label: "container_name", Op: "=~", Value: "a|b"},
+					{Label: "container_command", Op: "=", Value: "run running"}, {Label: "container_status", Op: "=~", Value: "Up .*"}, {Label: "__zone", Op: "=", Value: "z"}} {
 					one(c02Input{Ctrs: inv, Matchers: []c02Matcher{m}, Shape: "log", StartNS: 0, EndNS: 3 * sec, Before: before, BeforeMatchers: bm})
 				}
 			}
